@@ -388,6 +388,805 @@ Lemma spec_verdict_shape sel t : exists v tested n fs,
   spec_verdict sel t = VTuple [VBool v; VBool tested; VInt n; VList fs].
 Proof. rewrite spec_verdict_unfold. destruct sel; do 4 eexists; reflexivity. Qed.
 
+(* what the components of one verdict say about the selected nodes *)
+Lemma fails_of_length : forall sel r i, List.length r = List.length sel ->
+  List.length (fails_of i sel r) = List.length (filter negb r).
+Proof.
+  induction sel as [ | [cp v] sel IH ]; intros [ | b r ] i Hlen; cbn in Hlen; try discriminate; [ reflexivity | ].
+  cbn [fails_of filter]. destruct b; cbn [negb List.length]; rewrite (IH r (i + 1)%Z) by lia; reflexivity.
+Qed.
+
+Theorem spec_verdict_components : forall sel t,
+  verdict_valid (spec_verdict sel t) = forallb (fun b => b) (verdict_results sel t) /\
+  verdict_nfail (spec_verdict sel t) = Z.of_nat (List.length (filter negb (verdict_results sel t))) /\
+  verdict_tested (spec_verdict sel t) = negb (match sel with [] => true | _ => false end).
+Proof.
+  intros sel t. rewrite spec_verdict_unfold. destruct sel as [ | pv sel ]; [ repeat split; reflexivity | ].
+  cbn [verdict_valid verdict_nfail verdict_tested].
+  rewrite (fails_of_length _ _ 0%Z (verdict_results_length (pv :: sel) t)). repeat split; reflexivity.
+Qed.
+
+(* the aggregates do not depend on the sort either: they are those of the rules as given *)
+Theorem C06_aggregates_unsorted : forall prs doc,
+  let vs := map (fun pr => spec_verdict (walk (sp_parts (fst pr)) [] doc) (sr_cond (snd pr))) (ssort_rules prs) in
+  let us := map (fun pr => spec_verdict (walk (sp_parts (fst pr)) [] doc) (sr_cond (snd pr))) prs in
+  forallb verdict_valid vs = forallb verdict_valid us /\
+  fold_right (fun v n => (verdict_nfail v + n)%Z) 0%Z vs = fold_right (fun v n => (verdict_nfail v + n)%Z) 0%Z us /\
+  List.length (filter verdict_tested vs) = List.length (filter verdict_tested us).
+Proof.
+  intros prs doc vs us.
+  assert (Hv : Permutation vs us) by (apply Permutation_map; apply ssort_rules_perm).
+  split; [ apply forallb_perm; exact Hv | ].
+  split; [ apply (sum_nfail_perm _ _ Hv) | apply Permutation_length; apply filter_perm; exact Hv ].
+Qed.
+
+(* ================================================================== *)
+(* PART B — C15                                                         *)
+(* ================================================================== *)
+
+(* ------------------------------------------------------------------ *)
+(* B0. only strings are castable, and only to bool / int                *)
+
+Lemma apply_cast_str f v v' : apply_cast f v = Ok v' ->
+  exists s, v = VStr s /\ ((exists b, v' = VBool b) \/ (exists z, v' = VInt z)).
+Proof.
+  intros H. destruct f, v; cbn [apply_cast] in H; try discriminate H.
+  - exists s. split; [ reflexivity | ]. left.
+    destruct (String.eqb (str_lower s) "true"); [ inversion H; eauto | ].
+    destruct (String.eqb (str_lower s) "false"); [ inversion H; eauto | discriminate H ].
+  - exists s. split; [ reflexivity | ]. right.
+    destruct (int_of_str s); [ inversion H; eauto | discriminate H ].
+Qed.
+
+Lemma spec_first_cast_str : forall casts v v', spec_first_cast casts v = Some v' ->
+  exists s, v = VStr s /\ ((exists b, v' = VBool b) \/ (exists z, v' = VInt z)).
+Proof.
+  induction casts as [ | [t f] casts IH ]; intros v v' H; cbn [spec_first_cast] in H; [ discriminate H | ].
+  destruct (inst_of v t); [ | apply IH; exact H ].
+  destruct (apply_cast f v) as [x | e] eqn:E; [ | apply IH; exact H ].
+  inversion H; subst. eapply apply_cast_str; eauto.
+Qed.
+
+Lemma spec_first_cast_wf casts v v' : spec_first_cast casts v = Some v' -> wf_val v' = true.
+Proof.
+  intros H. destruct (spec_first_cast_str _ _ _ H) as [s [_ [[b ->] | [z ->]]]]; reflexivity.
+Qed.
+
+(* a castable node has no children: no part selects anything below it *)
+Lemma castable_no_children casts v v' p : spec_first_cast casts v = Some v' -> children p v = [].
+Proof.
+  intros H. destruct (spec_first_cast_str _ _ _ H) as [s [-> _]]. destruct p; reflexivity.
+Qed.
+
+(* ------------------------------------------------------------------ *)
+(* B1. one level of a container: position of a key, child at a position  *)
+
+Fixpoint dict_pos (k : pyval) (d : list (pyval * pyval)) : option nat :=
+  match d with
+  | [] => None
+  | kv :: r => if py_eq k (fst kv) then Some O else option_map S (dict_pos k r)
+  end.
+
+Fixpoint dset (d : list (pyval * pyval)) (i : nat) (x : pyval) : option (list (pyval * pyval)) :=
+  match d with
+  | [] => None
+  | kv :: r => match i with
+               | O => Some ((fst kv, x) :: r)
+               | S j => option_map (cons kv) (dset r j x)
+               end
+  end.
+
+(* the position a key denotes in a container: dict keys by ==, list indices normalised *)
+Definition key_pos (v : pyval) (k : pyval) : option nat :=
+  match v with
+  | VDict d => dict_pos k d
+  | VList l => norm_index l k
+  | _ => None
+  end.
+
+Definition child_at (v : pyval) (i : nat) : option pyval :=
+  match v with
+  | VDict d => option_map snd (nth_error d i)
+  | VList l => nth_error l i
+  | _ => None
+  end.
+
+Definition set_child (v : pyval) (i : nat) (x : pyval) : option pyval :=
+  match v with
+  | VDict d => option_map VDict (dset d i x)
+  | VList l => option_map VList (list_set l i x)
+  | _ => None
+  end.
+
+Lemma dict_look_pos k : forall d,
+  dict_look k d = match dict_pos k d with Some i => option_map snd (nth_error d i) | None => None end.
+Proof.
+  induction d as [ | [k2 v2] r IH ]; [ reflexivity | ].
+  change (dict_look k ((k2, v2) :: r)) with (if py_eq k k2 then Some v2 else dict_look k r).
+  cbn [dict_pos fst]. destruct (py_eq k k2); [ reflexivity | ].
+  rewrite IH. destruct (dict_pos k r); reflexivity.
+Qed.
+
+Lemma dict_set_dset k x : forall d,
+  dict_set k x d = match dict_pos k d with Some i => dset d i x | None => None end.
+Proof.
+  induction d as [ | [k2 v2] r IH ]; [ reflexivity | ].
+  cbn [dict_set dict_pos fst]. destruct (py_eq k k2); [ reflexivity | ].
+  rewrite IH. destruct (dict_pos k r) as [i | ]; cbn; [ | reflexivity ].
+  destruct (dset r i x); reflexivity.
+Qed.
+
+Lemma dset_fst : forall d i x d', dset d i x = Some d' -> map fst d' = map fst d.
+Proof.
+  induction d as [ | kv r IH ]; intros [ | j ] x d' H; cbn [dset] in H; try discriminate H.
+  - inversion H. reflexivity.
+  - destruct (dset r j x) as [r' | ] eqn:E; cbn [option_map] in H; [ | discriminate H ].
+    inversion H. cbn. f_equal. eapply IH; eauto.
+Qed.
+
+Lemma dset_nth_same : forall d i x d', dset d i x = Some d' -> option_map snd (nth_error d' i) = Some x.
+Proof.
+  induction d as [ | kv r IH ]; intros [ | j ] x d' H; cbn [dset] in H; try discriminate H.
+  - inversion H. reflexivity.
+  - destruct (dset r j x) as [r' | ] eqn:E; cbn [option_map] in H; [ | discriminate H ].
+    inversion H. cbn [nth_error]. eapply IH; eauto.
+Qed.
+
+Lemma dset_nth_other : forall d i x d' j, dset d i x = Some d' -> j <> i -> nth_error d' j = nth_error d j.
+Proof.
+  induction d as [ | kv r IH ]; intros [ | i ] x d' j H Hne; cbn [dset] in H; try discriminate H.
+  - inversion H. destruct j; [ contradiction | reflexivity ].
+  - destruct (dset r i x) as [r' | ] eqn:E; cbn [option_map] in H; [ | discriminate H ].
+    inversion H. destruct j; [ reflexivity | ]. cbn [nth_error]. eapply IH; eauto.
+Qed.
+
+Lemma dset_exists : forall d i x kv, nth_error d i = Some kv -> exists d', dset d i x = Some d'.
+Proof.
+  induction d as [ | a r IH ]; intros [ | i ] x kv H; cbn [nth_error] in H; try discriminate H.
+  - eexists. reflexivity.
+  - destruct (IH i x kv H) as [r' Hr]. cbn [dset]. rewrite Hr. eexists. reflexivity.
+Qed.
+
+Lemma list_set_length {X} : forall (l : list X) i x l', list_set l i x = Some l' -> List.length l' = List.length l.
+Proof.
+  induction l as [ | a r IH ]; intros [ | j ] x l' H; cbn [list_set] in H; try discriminate H.
+  - inversion H. reflexivity.
+  - destruct (list_set r j x) as [r' | ] eqn:E; [ | discriminate H ].
+    inversion H. cbn. f_equal. eapply IH; eauto.
+Qed.
+
+Lemma list_set_nth_same {X} : forall (l : list X) i x l', list_set l i x = Some l' -> nth_error l' i = Some x.
+Proof.
+  induction l as [ | a r IH ]; intros [ | j ] x l' H; cbn [list_set] in H; try discriminate H.
+  - inversion H. reflexivity.
+  - destruct (list_set r j x) as [r' | ] eqn:E; [ | discriminate H ].
+    inversion H. cbn [nth_error]. eapply IH; eauto.
+Qed.
+
+Lemma list_set_nth_other {X} : forall (l : list X) i x l' j, list_set l i x = Some l' -> j <> i ->
+  nth_error l' j = nth_error l j.
+Proof.
+  induction l as [ | a r IH ]; intros [ | i ] x l' j H Hne; cbn [list_set] in H; try discriminate H.
+  - inversion H. destruct j; [ contradiction | reflexivity ].
+  - destruct (list_set r i x) as [r' | ] eqn:E; [ | discriminate H ].
+    inversion H. destruct j; [ reflexivity | ]. cbn [nth_error]. eapply IH; eauto.
+Qed.
+
+Lemma list_set_exists {X} : forall (l : list X) i x y, nth_error l i = Some y -> exists l', list_set l i x = Some l'.
+Proof.
+  induction l as [ | a r IH ]; intros [ | i ] x y H; cbn [nth_error] in H; try discriminate H.
+  - eexists. reflexivity.
+  - destruct (IH i x y H) as [r' Hr]. cbn [list_set]. rewrite Hr. eexists. reflexivity.
+Qed.
+
+Lemma dict_pos_fst k : forall d d', map fst d = map fst d' -> dict_pos k d = dict_pos k d'.
+Proof.
+  induction d as [ | a r IH ]; intros [ | b r' ] H; cbn [map] in H; try discriminate H; [ reflexivity | ].
+  injection H as H1 H2. cbn [dict_pos]. rewrite H1, (IH r' H2). reflexivity.
+Qed.
+
+(* get_at / set_at, one step at a time *)
+Lemma get_at_step v k r :
+  get_at v (k :: r) = match key_pos v k with
+                      | Some i => match child_at v i with Some c => get_at c r | None => None end
+                      | None => None
+                      end.
+Proof.
+  destruct v; try reflexivity.
+  cbn [get_at key_pos child_at]. rewrite dict_look_pos.
+  destruct (dict_pos k d) as [i | ]; [ | reflexivity ].
+  destruct (nth_error d i); reflexivity.
+Qed.
+
+Lemma set_at_step v k r x :
+  set_at v (k :: r) x = match key_pos v k with
+                        | Some i => match child_at v i with
+                                    | Some c => match set_at c r x with
+                                                | Some c' => set_child v i c'
+                                                | None => None
+                                                end
+                                    | None => None
+                                    end
+                        | None => None
+                        end.
+Proof.
+  destruct v; try reflexivity.
+  cbn [set_at key_pos child_at set_child]. rewrite dict_look_pos.
+  destruct (dict_pos k d) as [i | ] eqn:Hp; [ | reflexivity ].
+  destruct (nth_error d i) as [kv | ]; cbn [option_map]; [ | reflexivity ].
+  destruct (set_at (snd kv) r x) as [c' | ]; [ | reflexivity ].
+  rewrite dict_set_dset, Hp. reflexivity.
+Qed.
+
+Lemma set_child_key_pos v i x v' k : set_child v i x = Some v' -> key_pos v' k = key_pos v k.
+Proof.
+  intros H. destruct v; cbn [set_child] in H; try discriminate H.
+  - destruct (list_set l i x) as [l' | ] eqn:E; cbn [option_map] in H; [ | discriminate H ].
+    inversion H. cbn [key_pos]. unfold norm_index. rewrite (list_set_length _ _ _ _ E). reflexivity.
+  - destruct (dset d i x) as [d' | ] eqn:E; cbn [option_map] in H; [ | discriminate H ].
+    inversion H. cbn [key_pos]. apply dict_pos_fst. eapply dset_fst; eauto.
+Qed.
+
+Lemma set_child_same v i x v' : set_child v i x = Some v' -> child_at v' i = Some x.
+Proof.
+  intros H. destruct v; cbn [set_child] in H; try discriminate H.
+  - destruct (list_set l i x) as [l' | ] eqn:E; cbn [option_map] in H; [ | discriminate H ].
+    inversion H. cbn [child_at]. eapply list_set_nth_same; eauto.
+  - destruct (dset d i x) as [d' | ] eqn:E; cbn [option_map] in H; [ | discriminate H ].
+    inversion H. cbn [child_at]. eapply dset_nth_same; eauto.
+Qed.
+
+Lemma set_child_other v i x v' j : set_child v i x = Some v' -> j <> i -> child_at v' j = child_at v j.
+Proof.
+  intros H Hne. destruct v; cbn [set_child] in H; try discriminate H.
+  - destruct (list_set l i x) as [l' | ] eqn:E; cbn [option_map] in H; [ | discriminate H ].
+    inversion H. cbn [child_at]. eapply list_set_nth_other; eauto.
+  - destruct (dset d i x) as [d' | ] eqn:E; cbn [option_map] in H; [ | discriminate H ].
+    inversion H. cbn [child_at]. rewrite (dset_nth_other _ _ _ _ j E Hne). reflexivity.
+Qed.
+
+Lemma set_child_exists v i c x : child_at v i = Some c -> exists v', set_child v i x = Some v'.
+Proof.
+  intros H. destruct v; cbn [child_at] in H; try discriminate H.
+  - destruct (list_set_exists _ _ x _ H) as [l' Hl]. cbn [set_child]. rewrite Hl. eexists. reflexivity.
+  - destruct (nth_error d i) as [kv | ] eqn:E; [ | discriminate H ].
+    destruct (dset_exists _ _ x _ E) as [d' Hd]. cbn [set_child]. rewrite Hd. eexists. reflexivity.
+Qed.
+
+Lemma wf_dict_iff d : wf_val (VDict d) = (wf_entries d && keys_distinct (map fst d)).
+Proof. reflexivity. Qed.
+
+Lemma dset_wf_entries : forall d i x d', wf_entries d = true -> wf_val x = true -> dset d i x = Some d' ->
+  wf_entries d' = true.
+Proof.
+  induction d as [ | [k y] r IH ]; intros [ | j ] x d' Hwf Hx H; cbn [dset] in H; try discriminate H;
+    cbn [wf_entries] in Hwf; rewrite !andb_true_iff in Hwf; destruct Hwf as [[[Hk Hh] Hy] Hr].
+  - inversion H. cbn [fst wf_entries]. rewrite Hk, Hh, Hx, Hr. reflexivity.
+  - destruct (dset r j x) as [r' | ] eqn:E; cbn [option_map] in H; [ | discriminate H ].
+    inversion H. cbn [wf_entries]. rewrite Hk, Hh, Hy, (IH j x r' Hr Hx E). reflexivity.
+Qed.
+
+Lemma list_set_forallb {X} (f : X -> bool) : forall l i x l', forallb f l = true -> f x = true ->
+  list_set l i x = Some l' -> forallb f l' = true.
+Proof.
+  induction l as [ | a r IH ]; intros [ | j ] x l' Hall Hx H; cbn [list_set] in H; try discriminate H;
+    cbn [forallb] in Hall; apply andb_true_iff in Hall; destruct Hall as [Ha Hr].
+  - inversion H. cbn [forallb]. rewrite Hx, Hr. reflexivity.
+  - destruct (list_set r j x) as [r' | ] eqn:E; [ | discriminate H ].
+    inversion H. cbn [forallb]. rewrite Ha, (IH j x r' Hr Hx E). reflexivity.
+Qed.
+
+Lemma set_child_wf v i x v' : wf_val v = true -> wf_val x = true -> set_child v i x = Some v' -> wf_val v' = true.
+Proof.
+  intros Hwf Hx H. destruct v; cbn [set_child] in H; try discriminate H.
+  - destruct (list_set l i x) as [l' | ] eqn:E; cbn [option_map] in H; [ | discriminate H ].
+    inversion H. cbn [wf_val] in *. eapply list_set_forallb; eauto.
+  - destruct (dset d i x) as [d' | ] eqn:E; cbn [option_map] in H; [ | discriminate H ].
+    inversion H. rewrite wf_dict_iff in *. apply andb_true_iff in Hwf. destruct Hwf as [He Hkd].
+    rewrite (dset_fst _ _ _ _ E), Hkd, (dset_wf_entries _ _ _ _ He Hx E). reflexivity.
+Qed.
+
+(* ------------------------------------------------------------------ *)
+(* B1. get/set along a path                                             *)
+
+(* get_at is index_along *)
+Lemma get_at_index_along : forall cp v, get_at v cp = index_along v cp.
+Proof.
+  induction cp as [ | k r IH ]; intros v; [ reflexivity | ].
+  cbn [get_at index_along]. destruct v; try reflexivity.
+  - unfold norm_index, list_index. destruct (int_of k) as [i | ]; [ | reflexivity ].
+    cbv zeta.
+    destruct (((if (i <? 0)%Z then (i + Z.of_nat (List.length l))%Z else i) <? 0)%Z
+              || (Z.of_nat (List.length l) <=? (if (i <? 0)%Z then (i + Z.of_nat (List.length l))%Z else i))%Z);
+      [ reflexivity | ].
+    destruct (nth_error l _); [ apply IH | reflexivity ].
+  - destruct (dict_look k d); [ apply IH | reflexivity ].
+Qed.
+
+Theorem walk_get_at : forall ps doc cp v, wf_val doc = true -> In (cp, v) (walk ps [] doc) -> get_at doc cp = Some v.
+Proof. intros ps doc cp v Hwf Hin. rewrite get_at_index_along. eapply C04_truthful; eauto. Qed.
+
+(* writing at an existing path succeeds and is read back (no well-formedness needed) *)
+Theorem set_at_get_same : forall cp v old x, get_at v cp = Some old ->
+  exists v', set_at v cp x = Some v' /\ get_at v' cp = Some x.
+Proof.
+  induction cp as [ | k r IH ]; intros v old x Hg.
+  - exists x. split; reflexivity.
+  - rewrite get_at_step in Hg.
+    destruct (key_pos v k) as [i | ] eqn:Hk; [ | discriminate Hg ].
+    destruct (child_at v i) as [c | ] eqn:Hc; [ | discriminate Hg ].
+    destruct (IH c old x Hg) as [c' [Hs Hg']].
+    destruct (set_child_exists v i c c' Hc) as [v' Hv'].
+    exists v'. split.
+    + rewrite set_at_step, Hk, Hc, Hs. exact Hv'.
+    + rewrite get_at_step, (set_child_key_pos _ _ _ _ k Hv'), Hk, (set_child_same _ _ _ _ Hv'). exact Hg'.
+Qed.
+
+(* divergence of two concrete paths in a value: they reach a common container through the same
+   positions and there denote two different positions (dict keys compared by ==, list indices
+   after normalisation, exactly as get_at / set_at resolve them) *)
+Fixpoint diverge (v : pyval) (cp cq : list pyval) : Prop :=
+  match cp, cq with
+  | k1 :: r1, k2 :: r2 =>
+      match key_pos v k1, key_pos v k2 with
+      | Some i, Some j =>
+          if Nat.eqb i j
+          then match child_at v i with Some c => diverge c r1 r2 | None => False end
+          else True
+      | _, _ => False
+      end
+  | _, _ => False
+  end.
+
+Lemma diverge_nil_r v cp : diverge v cp [] -> False.
+Proof. destruct cp; exact (fun H => H). Qed.
+
+Theorem set_at_get_other : forall cp v cq x v', set_at v cp x = Some v' -> diverge v cp cq ->
+  get_at v' cq = get_at v cq.
+Proof.
+  induction cp as [ | k r IH ]; intros v cq x v' Hs Hd; [ contradiction Hd | ].
+  destruct cq as [ | k2 r2 ]; [ contradiction Hd | ].
+  cbn [diverge] in Hd. rewrite set_at_step in Hs.
+  destruct (key_pos v k) as [i | ] eqn:Hi; [ | discriminate Hs ].
+  destruct (key_pos v k2) as [j | ] eqn:Hj; [ | contradiction Hd ].
+  destruct (child_at v i) as [c | ] eqn:Hc; [ | discriminate Hs ].
+  destruct (set_at c r x) as [c' | ] eqn:Hsc; [ | discriminate Hs ].
+  rewrite !get_at_step, (set_child_key_pos _ _ _ _ k2 Hs), Hj.
+  destruct (Nat.eqb_spec i j) as [ <- | Hne ].
+  - rewrite (set_child_same _ _ _ _ Hs), Hc. eapply IH; eauto.
+  - rewrite (set_child_other _ _ _ _ j Hs) by congruence. reflexivity.
+Qed.
+
+Theorem set_at_wf : forall cp v x v', wf_val v = true -> wf_val x = true -> set_at v cp x = Some v' ->
+  wf_val v' = true.
+Proof.
+  induction cp as [ | k r IH ]; intros v x v' Hwf Hx Hs.
+  - inversion Hs; subst. exact Hx.
+  - rewrite set_at_step in Hs.
+    destruct (key_pos v k) as [i | ] eqn:Hi; [ | discriminate Hs ].
+    destruct (child_at v i) as [c | ] eqn:Hc; [ | discriminate Hs ].
+    destruct (set_at c r x) as [c' | ] eqn:Hsc; [ | discriminate Hs ].
+    eapply set_child_wf; [ exact Hwf | | exact Hs ].
+    eapply IH; [ | exact Hx | exact Hsc ].
+    (* the child of a well-formed container is well-formed *)
+    destruct v; cbn [child_at] in Hc; try discriminate Hc.
+    + cbn [wf_val] in Hwf. rewrite forallb_forall in Hwf. apply Hwf. eapply nth_error_In; eauto.
+    + destruct (nth_error d i) as [[k0 y] | ] eqn:E; [ | discriminate Hc ].
+      inversion Hc; subst. destruct (wf_dict_split _ Hwf) as [He _].
+      eapply wf_entries_in; [ exact He | eapply nth_error_In; eauto ].
+Qed.
+
+(* a write below the top level leaves the top-level key structure alone *)
+Lemma set_at_key_pos v k r x v' k' : set_at v (k :: r) x = Some v' -> key_pos v' k' = key_pos v k'.
+Proof.
+  intros Hs. rewrite set_at_step in Hs.
+  destruct (key_pos v k) as [i | ]; [ | discriminate Hs ].
+  destruct (child_at v i) as [c | ]; [ | discriminate Hs ].
+  destruct (set_at c r x) as [c' | ]; [ | discriminate Hs ].
+  eapply set_child_key_pos; eauto.
+Qed.
+
+(* divergence survives a write at a path that is, for each of the two, either the path itself or
+   a diverging one *)
+Definition compat (v : pyval) (cr cp : list pyval) : Prop := cr = cp \/ diverge v cr cp.
+
+Lemma compat_cons v k r k1 r1 i c : key_pos v k = Some i -> child_at v i = Some c ->
+  compat v (k :: r) (k1 :: r1) -> exists i1, key_pos v k1 = Some i1 /\ (i = i1 -> compat c r r1).
+Proof.
+  intros Hk Hc [Heq | Hd].
+  - inversion Heq; subst. exists i. split; [ exact Hk | intros _; left; reflexivity ].
+  - cbn [diverge] in Hd. rewrite Hk in Hd.
+    destruct (key_pos v k1) as [i1 | ]; [ | contradiction Hd ].
+    exists i1. split; [ reflexivity | ]. intros <-. rewrite Nat.eqb_refl, Hc in Hd. right. exact Hd.
+Qed.
+
+Theorem diverge_set_at : forall cr v x v' cp cq, set_at v cr x = Some v' ->
+  compat v cr cp -> compat v cr cq -> diverge v cp cq -> diverge v' cp cq.
+Proof.
+  induction cr as [ | k r IH ]; intros v x v' cp cq Hs Hcp Hcq Hd.
+  - destruct Hcp as [ <- | Hcp ]; contradiction.
+  - destruct cp as [ | k1 r1 ]; [ contradiction Hd | ].
+    destruct cq as [ | k2 r2 ]; [ contradiction Hd | ].
+    rewrite set_at_step in Hs.
+    destruct (key_pos v k) as [i | ] eqn:Hi; [ | discriminate Hs ].
+    destruct (child_at v i) as [c | ] eqn:Hc; [ | discriminate Hs ].
+    destruct (set_at c r x) as [c' | ] eqn:Hsc; [ | discriminate Hs ].
+    destruct (compat_cons _ _ _ _ _ _ _ Hi Hc Hcp) as [i1 [Hi1 Hc1]].
+    destruct (compat_cons _ _ _ _ _ _ _ Hi Hc Hcq) as [i2 [Hi2 Hc2]].
+    cbn [diverge] in Hd |- *.
+    rewrite (set_child_key_pos _ _ _ _ k1 Hs), (set_child_key_pos _ _ _ _ k2 Hs).
+    rewrite Hi1, Hi2 in *.
+    destruct (Nat.eqb_spec i1 i2) as [ Heq | Hni ]; [ subst i2 | exact I ].
+    destruct (Nat.eq_dec i i1) as [ Heq | Hne ]; [ subst i1 | ].
+    + rewrite Hc in Hd. rewrite (set_child_same _ _ _ _ Hs).
+      eapply IH; [ exact Hsc | apply Hc1; reflexivity | apply Hc2; reflexivity | exact Hd ].
+    + rewrite (set_child_other _ _ _ _ i1 Hs) by congruence. exact Hd.
+Qed.
+
+(* ---- the paths reported by walks of equal length diverge pairwise ---- *)
+
+Lemma list_items_pos : forall (l : list pyval) s k v,
+  In (k, v) (combine (zidx s (List.length l)) l) ->
+  exists i : nat, k = VInt (s + Z.of_nat i) /\ nth_error l i = Some v /\
+                  nth_error (combine (zidx s (List.length l)) l) i = Some (k, v).
+Proof.
+  induction l as [ | x l IH ]; intros s k v Hin; cbn in Hin; [ contradiction | ].
+  destruct Hin as [ Heq | Hin ].
+  - inversion Heq; subst. exists O. split; [ f_equal; lia | split; reflexivity ].
+  - destruct (IH _ _ _ Hin) as [i [Hk [Hn Hc]]]. exists (S i).
+    split; [ rewrite Hk; f_equal; lia | split; [ exact Hn | exact Hc ] ].
+Qed.
+
+Lemma norm_index_nat (l : list pyval) (i : nat) : (i < List.length l)%nat ->
+  norm_index l (VInt (Z.of_nat i)) = Some i.
+Proof.
+  intros Hlt. unfold norm_index. cbn [int_of].
+  destruct (Z.of_nat i <? 0)%Z eqn:Hneg; [ apply Z.ltb_lt in Hneg; lia | ].
+  rewrite Hneg. cbn [orb].
+  destruct (Z.of_nat (List.length l) <=? Z.of_nat i)%Z eqn:Hge; [ apply Z.leb_le in Hge; lia | ].
+  rewrite Nat2Z.id. reflexivity.
+Qed.
+
+Lemma dict_items_pos : forall (d : list (pyval * pyval)) k v,
+  keys_distinct (map fst d) = true -> py_eq k k = true -> In (k, v) d ->
+  exists i, dict_pos k d = Some i /\ nth_error d i = Some (k, v).
+Proof.
+  induction d as [ | [k2 v2] r IH ]; intros k v Hkd Hrefl Hin; [ contradiction | ].
+  cbn [map fst keys_distinct] in Hkd.
+  apply andb_true_iff in Hkd. destruct Hkd as [Hkd Hrest].
+  apply andb_true_iff in Hkd. destruct Hkd as [_ Hno].
+  cbn [dict_pos fst]. destruct Hin as [ Heq | Hin ].
+  - inversion Heq; subst. rewrite Hrefl. exists O. split; reflexivity.
+  - assert (Hne : py_eq k k2 = false).
+    { destruct (py_eq k k2) eqn:E; [ | reflexivity ].
+      apply negb_true_iff in Hno.
+      assert (Hex : existsb (fun k' => py_eq k' k2) (map fst r) = true).
+      { apply existsb_exists. exists k. split; [ | exact E ].
+        apply in_map_iff. exists (k, v). split; [ reflexivity | exact Hin ]. }
+      congruence. }
+    rewrite Hne. destruct (IH k v Hrest Hrefl Hin) as [i [Hp Hn]].
+    exists (S i). rewrite Hp. split; [ reflexivity | exact Hn ].
+Qed.
+
+(* an item of a well-formed node is found by its own key, at its own position *)
+Lemma items_pos node k c : wf_val node = true -> In (k, c) (doc_items node) ->
+  exists i, key_pos node k = Some i /\ child_at node i = Some c /\ nth_error (doc_items node) i = Some (k, c).
+Proof.
+  intros Hwf Hin. destruct node; cbn [doc_items] in Hin; try contradiction.
+  - destruct (list_items_pos _ _ _ _ Hin) as [i [Hk [Hn Hc]]].
+    change (0 + Z.of_nat i)%Z with (Z.of_nat i) in Hk. subst k.
+    exists i. cbn [key_pos child_at doc_items]. split; [ | split; assumption ].
+    apply norm_index_nat. apply nth_error_Some. congruence.
+  - destruct (wf_dict_split _ Hwf) as [Hent Hkd].
+    destruct (wf_entries_in _ _ _ Hent Hin) as [_ [Hh _]].
+    destruct (dict_items_pos _ _ _ Hkd (py_eq_refl_hashable _ Hh) Hin) as [i [Hp Hn]].
+    exists i. cbn [key_pos child_at doc_items]. rewrite Hn. split; [ exact Hp | split; reflexivity ].
+Qed.
+
+Lemma walk_cons_in p r doc cp v : In (cp, v) (walk (p :: r) [] doc) ->
+  exists k c s, cp = k :: s /\ In (k, c) (children p doc) /\ In (s, v) (walk r [] c).
+Proof.
+  intros Hin. cbn [walk] in Hin. apply in_flat_map in Hin. destruct Hin as [[k c] [Hch Hin]].
+  cbn [fst snd] in Hin. rewrite walk_prefix in Hin. apply in_map_iff in Hin.
+  destruct Hin as [[s v'] [Heq Hin]]. unfold pref in Heq. cbn in Heq. inversion Heq; subst.
+  exists k, c, s. split; [ reflexivity | split; assumption ].
+Qed.
+
+Theorem walk_diverge_gen : forall ps1 ps2 doc cp v cq w, wf_val doc = true ->
+  List.length ps1 = List.length ps2 ->
+  In (cp, v) (walk ps1 [] doc) -> In (cq, w) (walk ps2 [] doc) -> cp <> cq -> diverge doc cp cq.
+Proof.
+  induction ps1 as [ | p1 r1 IH ]; intros [ | p2 r2 ] doc cp v cq w Hwf Hlen H1 H2 Hne; cbn in Hlen; try discriminate Hlen.
+  - cbn in H1, H2. destruct H1 as [ E1 | [] ]. destruct H2 as [ E2 | [] ].
+    inversion E1; inversion E2; subst. contradiction Hne. reflexivity.
+  - destruct (walk_cons_in _ _ _ _ _ H1) as [k1 [c1 [s1 [-> [Hch1 Hw1]]]]].
+    destruct (walk_cons_in _ _ _ _ _ H2) as [k2 [c2 [s2 [-> [Hch2 Hw2]]]]].
+    destruct (items_pos _ _ _ Hwf (children_sub _ _ _ Hch1)) as [i1 [Hk1 [Hc1 Hn1]]].
+    destruct (items_pos _ _ _ Hwf (children_sub _ _ _ Hch2)) as [i2 [Hk2 [Hc2 Hn2]]].
+    cbn [diverge]. rewrite Hk1, Hk2.
+    destruct (Nat.eqb_spec i1 i2) as [ <- | Hni ]; [ | exact I ].
+    rewrite Hn1 in Hn2. injection Hn2 as Ek Ec. subst k2 c2. rewrite Hc1.
+    apply (IH r2 c1 s1 v s2 w); [ eapply children_wf; eauto | lia | exact Hw1 | exact Hw2 | ].
+    intros ->. apply Hne. reflexivity.
+Qed.
+
+Corollary walk_diverge : forall ps doc cp v cq w, wf_val doc = true ->
+  In (cp, v) (walk ps [] doc) -> In (cq, w) (walk ps [] doc) -> cp <> cq -> diverge doc cp cq.
+Proof. intros ps doc cp v cq w Hwf. apply (walk_diverge_gen ps ps); [ exact Hwf | reflexivity ]. Qed.
+
+(* ------------------------------------------------------------------ *)
+(* B2. the casts of one rule                                            *)
+
+Definition cast_step (casts : list (pytype * castfn)) (acc : pyval) (pv : list pyval * pyval) : pyval :=
+  match spec_first_cast casts (snd pv) with
+  | Some v' => match fst pv with
+               | [] => acc
+               | cp => match set_at acc cp v' with Some d => d | None => acc end
+               end
+  | None => acc
+  end.
+
+Lemma cast_doc_fold casts sel doc : cast_doc casts sel doc = fold_left (cast_step casts) sel doc.
+Proof. reflexivity. Qed.
+
+Lemma cast_step_cases casts acc pv :
+  cast_step casts acc pv = acc \/
+  exists v', spec_first_cast casts (snd pv) = Some v' /\ fst pv <> [] /\
+             set_at acc (fst pv) v' = Some (cast_step casts acc pv).
+Proof.
+  unfold cast_step. destruct (spec_first_cast casts (snd pv)) as [v' | ]; [ | left; reflexivity ].
+  destruct (fst pv) as [ | k r ]; [ left; reflexivity | ].
+  destruct (set_at acc (k :: r) v') as [d | ] eqn:Es; [ | left; reflexivity ].
+  right. exists v'. split; [ reflexivity | split; [ discriminate | exact Es ] ].
+Qed.
+
+Lemma cast_step_wf casts acc pv : wf_val acc = true -> wf_val (cast_step casts acc pv) = true.
+Proof.
+  intros Hwf. destruct (cast_step_cases casts acc pv) as [ -> | [v' [Hc [_ Hs]]] ]; [ exact Hwf | ].
+  eapply set_at_wf; [ exact Hwf | eapply spec_first_cast_wf; eauto | exact Hs ].
+Qed.
+
+Theorem cast_doc_wf casts : forall sel doc, wf_val doc = true -> wf_val (cast_doc casts sel doc) = true.
+Proof.
+  induction sel as [ | pv sel IH ]; intros doc Hwf; [ exact Hwf | ].
+  rewrite cast_doc_fold. cbn [fold_left]. rewrite <- cast_doc_fold. apply IH. apply cast_step_wf. exact Hwf.
+Qed.
+
+Lemma cast_step_div casts acc pv cp cq :
+  (spec_first_cast casts (snd pv) <> None -> fst pv <> [] ->
+     compat acc (fst pv) cp /\ compat acc (fst pv) cq) ->
+  diverge acc cp cq -> diverge (cast_step casts acc pv) cp cq.
+Proof.
+  intros Hc Hd. destruct (cast_step_cases casts acc pv) as [ -> | [v' [Hf [Hne Hs]]] ]; [ exact Hd | ].
+  destruct (Hc ltac:(congruence) Hne) as [H1 H2]. eapply diverge_set_at; eauto.
+Qed.
+
+Lemma cast_step_get casts acc pv cq :
+  (spec_first_cast casts (snd pv) <> None -> fst pv <> [] -> diverge acc (fst pv) cq) ->
+  get_at (cast_step casts acc pv) cq = get_at acc cq.
+Proof.
+  intros Hc. destruct (cast_step_cases casts acc pv) as [ -> | [v' [Hf [Hne Hs]]] ]; [ reflexivity | ].
+  eapply set_at_get_other; [ exact Hs | ]. apply Hc; [ congruence | exact Hne ].
+Qed.
+
+Definition pairwise_div (acc : pyval) (paths : list (list pyval)) : Prop :=
+  forall cp cq, In cp paths -> In cq paths -> cp <> cq -> diverge acc cp cq.
+
+Lemma tail_pairwise casts acc cr w paths : NoDup (cr :: paths) -> pairwise_div acc (cr :: paths) ->
+  pairwise_div (cast_step casts acc (cr, w)) paths.
+Proof.
+  intros Hnd Hpw cp cq Hp Hq Hne. inversion Hnd as [ | ? ? Hnotin _ ]; subst.
+  apply cast_step_div; [ | apply Hpw; [ right; exact Hp | right; exact Hq | exact Hne ] ].
+  cbn [fst snd]. intros _ _. split; right; apply Hpw;
+    try (left; reflexivity); try (right; assumption); intros ->; contradiction.
+Qed.
+
+Lemma cast_fold_elsewhere casts : forall sel acc cq,
+  NoDup (map fst sel) -> pairwise_div acc (map fst sel) ->
+  (forall cp v, In (cp, v) sel -> cp <> [] -> spec_first_cast casts v <> None -> diverge acc cp cq) ->
+  get_at (fold_left (cast_step casts) sel acc) cq = get_at acc cq.
+Proof.
+  induction sel as [ | [cr w] sel IH ]; intros acc cq Hnd Hpw Hcq; [ reflexivity | ].
+  cbn [fold_left]. cbn [map fst] in Hnd, Hpw.
+  inversion Hnd as [ | ? ? Hnotin Hnd' ]; subst.
+  rewrite IH.
+  - apply cast_step_get. cbn [fst snd]. intros Hc Hne. apply (Hcq cr w); [ left; reflexivity | exact Hne | exact Hc ].
+  - exact Hnd'.
+  - eapply tail_pairwise; eauto.
+  - intros cp v Hin Hne Hc.
+    assert (Hinp : In cp (map fst sel)) by (apply (in_map fst) in Hin; exact Hin).
+    apply cast_step_div; [ | apply (Hcq cp v); [ right; exact Hin | exact Hne | exact Hc ] ].
+    cbn [fst snd]. intros Hcw Hnew. split; right.
+    + apply Hpw; [ left; reflexivity | right; exact Hinp | intros ->; contradiction ].
+    + apply (Hcq cr w); [ left; reflexivity | exact Hnew | exact Hcw ].
+Qed.
+
+Lemma cast_fold_nodes casts : forall sel acc,
+  NoDup (map fst sel) -> pairwise_div acc (map fst sel) ->
+  (forall cp v, In (cp, v) sel -> get_at acc cp = Some v) ->
+  forall cp v, In (cp, v) sel ->
+    get_at (fold_left (cast_step casts) sel acc) cp =
+    Some (match spec_first_cast casts v with
+          | Some v' => match cp with [] => v | _ => v' end
+          | None => v
+          end).
+Proof.
+  induction sel as [ | [cr w] sel IH ]; intros acc Hnd Hpw Hget cp v Hin; [ contradiction | ].
+  cbn [fold_left]. cbn [map fst] in Hnd, Hpw.
+  inversion Hnd as [ | ? ? Hnotin Hnd' ]; subst.
+  destruct Hin as [ Heq | Hin ].
+  - inversion Heq; subst. clear Heq.
+    rewrite cast_fold_elsewhere.
+    + unfold cast_step. cbn [fst snd].
+      destruct (spec_first_cast casts v) as [v' | ]; [ | apply Hget; left; reflexivity ].
+      destruct cp as [ | k r ]; [ apply Hget; left; reflexivity | ].
+      destruct (set_at_get_same (k :: r) acc v v' (Hget _ _ (or_introl eq_refl))) as [acc' [Hs Hg]].
+      rewrite Hs. exact Hg.
+    + exact Hnd'.
+    + eapply tail_pairwise; eauto.
+    + intros cp' v' Hin' Hne' Hc'.
+      assert (Hinp : In cp' (map fst sel)) by (apply (in_map fst) in Hin'; exact Hin').
+      assert (Hneq : cp' <> cp) by (intros ->; contradiction).
+      apply cast_step_div; [ | apply Hpw; [ right; exact Hinp | left; reflexivity | exact Hneq ] ].
+      cbn [fst snd]. intros _ _. split; [ right | left; reflexivity ].
+      apply Hpw; [ left; reflexivity | right; exact Hinp | congruence ].
+  - apply IH; [ exact Hnd' | eapply tail_pairwise; eauto | | exact Hin ].
+    intros cp' v' Hin'.
+    assert (Hinp : In cp' (map fst sel)) by (apply (in_map fst) in Hin'; exact Hin').
+    rewrite cast_step_get; [ apply Hget; right; exact Hin' | ].
+    cbn [fst snd]. intros _ _. apply Hpw; [ left; reflexivity | right; exact Hinp | intros ->; contradiction ].
+Qed.
+
+(* the selection of a walk on a well-formed document satisfies the fold invariant *)
+Lemma walk_pairwise ps doc : wf_val doc = true -> pairwise_div doc (map fst (walk ps [] doc)).
+Proof.
+  intros Hwf cp cq Hp Hq Hne.
+  apply in_map_iff in Hp. destruct Hp as [[cp' v] [E1 Hp]]. cbn in E1. subst cp'.
+  apply in_map_iff in Hq. destruct Hq as [[cq' w] [E2 Hq]]. cbn in E2. subst cq'.
+  eapply walk_diverge; eauto.
+Qed.
+
+(* a castable selected node is replaced by its cast value *)
+Theorem C15_cast_nodes : forall casts ps doc cp v v', wf_val doc = true ->
+  In (cp, v) (walk ps [] doc) -> cp <> [] -> spec_first_cast casts v = Some v' ->
+  get_at (cast_doc casts (walk ps [] doc) doc) cp = Some v'.
+Proof.
+  intros casts ps doc cp v v' Hwf Hin Hne Hc. rewrite cast_doc_fold.
+  rewrite (cast_fold_nodes casts _ doc (C04_distinct ps doc Hwf) (walk_pairwise ps doc Hwf)
+             (fun cp v H => walk_get_at ps doc cp v Hwf H) cp v Hin).
+  rewrite Hc. destruct cp; [ contradiction Hne; reflexivity | reflexivity ].
+Qed.
+
+(* a selected node no cast applies to is kept *)
+Theorem C15_uncastable_kept : forall casts ps doc cp v, wf_val doc = true ->
+  In (cp, v) (walk ps [] doc) -> spec_first_cast casts v = None ->
+  get_at (cast_doc casts (walk ps [] doc) doc) cp = Some v.
+Proof.
+  intros casts ps doc cp v Hwf Hin Hc. rewrite cast_doc_fold.
+  rewrite (cast_fold_nodes casts _ doc (C04_distinct ps doc Hwf) (walk_pairwise ps doc Hwf)
+             (fun cp v H => walk_get_at ps doc cp v Hwf H) cp v Hin).
+  rewrite Hc. reflexivity.
+Qed.
+
+(* the empty path selects the whole document, which is never written *)
+Theorem C15_root_kept : forall casts doc, cast_doc casts (walk [] [] doc) doc = doc.
+Proof.
+  intros casts doc. cbn [walk cast_doc fold_left fst snd].
+  destruct (spec_first_cast casts doc); reflexivity.
+Qed.
+
+(* every position that diverges from all cast nodes reads exactly as in the input.  (A container
+   that CONTAINS a cast node does change as a value, and a cast node itself changes; positions at
+   or above a cast node are therefore excluded: `diverge` holds for neither.  Positions below a
+   cast node do not exist: a castable node is a string.) *)
+Theorem C15_elsewhere : forall casts ps doc, wf_val doc = true -> forall cq,
+  (forall cp v, In (cp, v) (walk ps [] doc) -> cp <> [] -> spec_first_cast casts v <> None ->
+                diverge doc cp cq) ->
+  get_at (cast_doc casts (walk ps [] doc) doc) cq = get_at doc cq.
+Proof.
+  intros casts ps doc Hwf cq Hcq. rewrite cast_doc_fold.
+  apply cast_fold_elsewhere; [ apply C04_distinct; exact Hwf | apply walk_pairwise; exact Hwf | exact Hcq ].
+Qed.
+
+(* in particular: any node reported by a walk of the same length that the rule does not select *)
+Corollary C15_other_nodes : forall casts ps ps2 doc cq w, wf_val doc = true ->
+  List.length ps2 = List.length ps -> In (cq, w) (walk ps2 [] doc) ->
+  ~ In cq (map fst (walk ps [] doc)) ->
+  get_at (cast_doc casts (walk ps [] doc) doc) cq = Some w.
+Proof.
+  intros casts ps ps2 doc cq w Hwf Hlen Hin Hnot.
+  rewrite C15_elsewhere; [ eapply walk_get_at; eauto | exact Hwf | ].
+  intros cp v Hp _ _. eapply (walk_diverge_gen ps ps2); eauto.
+  intros ->. apply Hnot. apply (in_map fst) in Hp. exact Hp.
+Qed.
+
+(* ---- the shared copy of a schema is the left fold of the rules' casts ---- *)
+
+Lemma cast_doc_nil sel copy : cast_doc [] sel copy = copy.
+Proof.
+  rewrite cast_doc_fold. revert copy. induction sel as [ | pv sel IH ]; intros copy; [ reflexivity | ].
+  cbn [fold_left]. unfold cast_step at 2. cbn [spec_first_cast]. apply IH.
+Qed.
+
+Lemma spec_rule_in_schema_copy sp r doc copy :
+  snd (spec_rule_in_schema sp r doc copy) = cast_doc (sr_cast r) (walk (sp_parts sp) [] doc) copy.
+Proof.
+  unfold spec_rule_in_schema. destruct (sr_cast r) as [ | c cs ]; cbn [snd].
+  - symmetry. apply cast_doc_nil.
+  - reflexivity.
+Qed.
+
+Theorem C15_schema_fold : forall prs doc copy,
+  snd (spec_run_rules prs doc copy) =
+  fold_left (fun acc pr => cast_doc (sr_cast (snd pr)) (walk (sp_parts (fst pr)) [] doc) acc) prs copy.
+Proof.
+  induction prs as [ | [sp r] prs IH ]; intros doc copy; [ reflexivity | ].
+  cbn [spec_run_rules fold_left fst snd].
+  rewrite <- spec_rule_in_schema_copy.
+  destruct (spec_rule_in_schema sp r doc copy) as [v copy']. cbn [snd].
+  rewrite <- IH. destruct (spec_run_rules prs doc copy') as [vs copy'']. reflexivity.
+Qed.
+
+Corollary C15_schema_copy_wf : forall prs doc copy, wf_val copy = true ->
+  wf_val (snd (spec_run_rules prs doc copy)) = true.
+Proof.
+  intros prs doc copy Hwf. rewrite C15_schema_fold. revert copy Hwf.
+  induction prs as [ | pr prs IH ]; intros copy Hwf; [ exact Hwf | ].
+  cbn [fold_left]. apply IH. apply cast_doc_wf. exact Hwf.
+Qed.
+
+(* ---- examples ---- *)
+
+Definition ex15_doc : pyval :=
+  VDict [(VStr "a", VList [VStr "3"; VStr "abc"; VInt 5]); (VInt 1, VStr "TRUE")].
+Definition ex15_parts : list spart := [SPMap (QLeaf SKey (Q_equal_to (VStr "a"))); SPList QNull].
+
+Example ex15_walk : walk ex15_parts [] ex15_doc =
+  [([VStr "a"; VInt 0], VStr "3"); ([VStr "a"; VInt 1], VStr "abc"); ([VStr "a"; VInt 2], VInt 5)].
+Proof. vm_compute. reflexivity. Qed.
+
+Example ex15_cast_int :
+  cast_doc [(TStr, CastStrInt)] (walk ex15_parts [] ex15_doc) ex15_doc
+  = VDict [(VStr "a", VList [VInt 3; VStr "abc"; VInt 5]); (VInt 1, VStr "TRUE")].
+Proof. vm_compute. reflexivity. Qed.
+
+Example ex15_cast_bool :
+  cast_doc [(TStr, CastStrBool)] (walk [SPMap QNull] [] ex15_doc) ex15_doc
+  = VDict [(VStr "a", VList [VStr "3"; VStr "abc"; VInt 5]); (VInt 1, VBool true)].
+Proof. vm_compute. reflexivity. Qed.
+
+(* keys are resolved the way Python resolves them: True finds the entry stored under 1, -1 the last
+   element; the syntactically different paths [a; -3] and [a; 0] do NOT diverge *)
+Example ex15_keys :
+  get_at ex15_doc [VBool true] = Some (VStr "TRUE") /\
+  get_at ex15_doc [VStr "a"; VInt (-1)] = Some (VInt 5) /\
+  set_at ex15_doc [VStr "a"; VInt (-3)] (VInt 3)
+    = Some (VDict [(VStr "a", VList [VInt 3; VStr "abc"; VInt 5]); (VInt 1, VStr "TRUE")]) /\
+  diverge ex15_doc [VStr "a"; VInt 0] [VStr "a"; VInt 1] /\
+  diverge ex15_doc [VStr "a"; VInt 0] [VInt 1] /\
+  ~ diverge ex15_doc [VStr "a"; VInt (-3)] [VStr "a"; VInt 0] /\
+  ~ diverge ex15_doc [VStr "a"] [VStr "a"; VInt 0].
+Proof. vm_compute. repeat split; try reflexivity; intros H; exact H. Qed.
+
+(* two rules in one schema: the copy accumulates both casts, shortest path first *)
+Example ex15_schema :
+  let mk := fun ps => {| sp_parts := ps; sp_concrete := false; sp_dt := SdNone; sp_mt := SmNone; sp_src := None |} in
+  let rl := fun casts => {| sr_path := {| st_parts := []; st_mods := []; st_src := None |};
+                            sr_cond := QNull; sr_cast := casts |} in
+  snd (spec_run_rules (ssort_rules [(mk ex15_parts, rl [(TStr, CastStrInt)]);
+                                    (mk [SPMap QNull], rl [(TStr, CastStrBool)])]) ex15_doc ex15_doc)
+  = VDict [(VStr "a", VList [VInt 3; VStr "abc"; VInt 5]); (VInt 1, VBool true)].
+Proof. vm_compute. reflexivity. Qed.
+
+(* well-formedness is needed: with two == keys the second cast is written over the first *)
+Example ex15_illformed :
+  let bad := VDict [(VInt 1, VStr "5"); (VBool true, VStr "7")] in
+  wf_val bad = false /\
+  walk [SPMap QNull] [] bad = [([VInt 1], VStr "5"); ([VBool true], VStr "7")] /\
+  cast_doc [(TStr, CastStrInt)] (walk [SPMap QNull] [] bad) bad
+    = VDict [(VInt 1, VInt 7); (VBool true, VStr "7")].
+Proof. vm_compute. repeat split; reflexivity. Qed.
+
 Print Assumptions C06_sorted_stable.
 Print Assumptions spec_run_rules_castfree.
 Print Assumptions C06_order_independent.
@@ -395,3 +1194,22 @@ Print Assumptions C06_conjunction_gen.
 Print Assumptions C06_conjunction.
 Print Assumptions C06_order_independent_validate.
 Print Assumptions spec_verdict_sane.
+Print Assumptions spec_verdict_components.
+Print Assumptions C06_aggregates_unsorted.
+Print Assumptions apply_cast_str.
+Print Assumptions spec_first_cast_str.
+Print Assumptions walk_get_at.
+Print Assumptions set_at_get_same.
+Print Assumptions set_at_get_other.
+Print Assumptions set_at_wf.
+Print Assumptions diverge_set_at.
+Print Assumptions walk_diverge_gen.
+Print Assumptions walk_diverge.
+Print Assumptions cast_doc_wf.
+Print Assumptions C15_cast_nodes.
+Print Assumptions C15_uncastable_kept.
+Print Assumptions C15_root_kept.
+Print Assumptions C15_elsewhere.
+Print Assumptions C15_other_nodes.
+Print Assumptions C15_schema_fold.
+Print Assumptions C15_schema_copy_wf.
